@@ -132,7 +132,7 @@ Definition hstr1 (h : heap) (w : hval) : option hval :=
   match w with
   | HRef l _ => match get_cell h l with
                 | Some c => match ckind c, citems c with
-                            | KStr, [(_, b)] => Some b
+                            | KStr, [(_, HInt b)] => Some (HInt b)
                             | _, _ => None
                             end
                 | None => None
@@ -197,8 +197,12 @@ Fixpoint m_set (every : bool) (p : path) (new : option hval) (h : heap) (cur : h
                 let '(h1, l') := make_mut h l in
                 match hstr1 h w with
                 | Some b =>
-                  match (match pe with PI z => norm_index (length (citems c)) z | _ => None end) with
-                  | Some n => (drop_val (put_item h1 l' n b) w, HRef l' d, true)
+                  match leaf_index pe (length (citems c)) with
+                  | Some n =>
+                    match nth_item n (citems c) with
+                    | Some old => (drop_val (drop_val (put_item h1 l' n b) old) w, HRef l' d, true)
+                    | None => (drop_val h1 w, HRef l' d, false)
+                    end
                   | None => (drop_val h1 w, HRef l' d, false)
                   end
                 | None => (drop_val h1 w, HRef l' d, false)
@@ -252,11 +256,16 @@ Fixpoint m_set (every : bool) (p : path) (new : option hval) (h : heap) (cur : h
           end
         | KVec =>
           match pe, rest with
-          | PI z, [] =>
+          | PSl _ _, _ => (drop_opt h new, cur, false)
+          | _, [] =>
             match new with
             | Some (HInt n) =>
-              match norm_index (length (citems c)) z with
-              | Some i => let '(h1, l') := make_mut h l in (put_item h1 l' i (HInt n), HRef l' d, true)
+              match leaf_index pe (length (citems c)) with
+              | Some i =>
+                match nth_item i (citems c) with
+                | Some old => let '(h1, l') := make_mut h l in (drop_val (put_item h1 l' i (HInt n)) old, HRef l' d, true)
+                | None => (h, cur, false)
+                end
               | None => (h, cur, false)
               end
             | Some w => (drop_val h w, cur, false)
@@ -266,13 +275,19 @@ Fixpoint m_set (every : bool) (p : path) (new : option hval) (h : heap) (cur : h
           end
         | KBytes =>
           match pe, rest with
-          | PI z, [] =>
+          | PSl _ _, _ => (drop_opt h new, cur, false)
+          | _, [] =>
             match new with
             | Some (HInt n) =>
-              match norm_index (length (citems c)) z with
-              | Some i => if is_byte n
-                          then let '(h1, l') := make_mut h l in (put_item h1 l' i (HInt n), HRef l' d, true)
-                          else (h, cur, false)
+              match leaf_index pe (length (citems c)) with
+              | Some i =>
+                match nth_item i (citems c) with
+                | Some old =>
+                  if is_byte n
+                  then let '(h1, l') := make_mut h l in (drop_val (put_item h1 l' i (HInt n)) old, HRef l' d, true)
+                  else (h, cur, false)
+                | None => (h, cur, false)
+                end
               | None => (h, cur, false)
               end
             | Some w => (drop_val h w, cur, false)
